@@ -8,7 +8,7 @@ import numpy as np
 from vlib import core, dom, rescorr
 
 ID = "C04"
-PROPS = ["C04_update.v", "C01_matrix.v", "C04_step_system.v", "C02_mesh.v"]
+PROPS = ["C04_update.v", "C01_matrix.v", "C04_step_system.v", "C02_mesh.v", "C04_acceptance.v"]
 GEN = ["reservoir"]
 RES_TOL = 1e-9
 
@@ -56,15 +56,16 @@ def probes(ctx, cases):
             ctx.violations.append(dict(what="linear solver is called with a loose tolerance (solver error can compete with discretisation error)",
                                        key="loose-tol", input=rescorr.replay_payload(c), observed=dict(rtol=worst_r, atol=worst_a)))
         nsteps = len(c["times"]) - 1
-        for at, code in [(a_, c_) for a_ in sorted({0, nsteps // 2, nsteps - 1}) for c_ in (1, -10)]:
+        for at, code in [(a_, c_) for a_ in sorted({0, nsteps // 2, nsteps - 1}) for c_ in (1, -10, 0)]:      # 0: an iterate 1e-3 off, reported as converged (drifted recursive residual)
             with Probe(fail_at=at, fail_info=code) as p2:
                 im2 = rescorr.run_impl(c)
             if len(p2.calls) <= at:
                 continue
             # either the run is rejected, or the flagged iterate was replaced: the stored level must still be the update
             if "error" not in im2 and ("field" not in im or np.abs(im2["field"] - im["field"]).max() > 1e-8 * max(1.0, np.abs(im["field"]).max())):
-                ctx.violations.append(dict(what="a linear solve that reported non-convergence (info != 0) was silently accepted into the result",
-                                           key="info-ignored", input=rescorr.replay_payload(c),
+                ctx.violations.append(dict(what="a linear solve that reported non-convergence (info != 0) was silently accepted into the result" if code else
+                                           "an iterate 1e-3 away from the solution of its step, reported as converged (info = 0), was accepted into the result: the true residual is not checked",
+                                           key="info-ignored" if code else "drift-accepted", input=rescorr.replay_payload(c),
                                            observed=dict(failed_step=at, info=code, max_field_change=float(np.abs(im2["field"] - im["field"]).max()) if "field" in im else None)))
                 break
     ctx.cov["solver_probes"] = seen
@@ -145,6 +146,46 @@ def run(ctx):
             ctx.violations.append(dict(what="a simulation gives another pseudopressure field after an (unsuccessful) history-match call in the same process: the time levels are no longer the same "
                                             "implicit updates (solver settings changed behind the simulator's back)", key="cross-call-state", input=dict(**rescorr.replay_payload(c_), earlier_in_the_process="fit_production_pressure with pressure_imax beyond the table (raises)"),
                                        observed=dict(max_field_diff=float(np.abs(a_["field"] - b_["field"]).max()) if "field" in a_ else a_.get("error"))))
+    # fine grids with large, varying steps (400 nodes, the shipped oil table, an oscillating frac-face schedule; steps of 30 on the gas
+    # table): too large for the model run inside Coq, so the TRUE residual of every stored level is recomputed here from the table
+    # (independent assembly: np.interp lookups, dense tridiagonal product) - the iterative solver's own convergence flag is not evidence
+    # (fixed 2026-10, 15e03b2: levels were stored with a true relative residual of 3.8e-8 although the solver reported success)
+    for tb_b, pi_b, pf_lo, tgrid_b, sched_kind in ((rescorr.shipped_oil(stride=1), 6000.0, 37.81, np.linspace(0, 100, 101), "oscillating"),
+                                                   (rescorr.shipped_gas(stride=1), 6000.0, 100.0, np.arange(31) * 30.0, "constant")):
+        nxb = 400
+        sched_b = pf_lo + (pi_b - pf_lo) * (0.5 + 0.5 * np.sin(1.7 * np.arange(len(tgrid_b)))) if sched_kind == "oscillating" else np.full(len(tgrid_b), pf_lo)
+        cb = dict(kind="single", table=tb_b, table_kind="shipped", pi=pi_b, pf=float(sched_b[0]), nx=nxb, times=tgrid_b, grid="coarse steps on a fine grid", sched=[float(x) for x in sched_b])
+        imb = rescorr.run_impl(cb)
+        if "field" not in imb:
+            ctx.violations.append(dict(what="simulation fails on an admissible case", key="big-fails", input=rescorr.replay_payload(cb), observed=imb.get("error")))
+            continue
+        pt = np.asarray(tb_b["pressure"], float)
+        s_i = float(np.interp(pi_b, pt, np.asarray(tb_b["compressibility"], float) * np.asarray(tb_b["viscosity"], float) * np.asarray(tb_b["z-factor"], float) / (2 * pt)))
+        msc = np.asarray(tb_b["pseudopressure"], float) * s_i
+        atab = 1.0 / (np.asarray(tb_b["compressibility"], float) * np.asarray(tb_b["viscosity"], float))
+        a_of = lambda u: np.interp(u, msc, atab, left=atab.min(), right=atab.max())
+        m_i_b = float(np.interp(pi_b, pt, msc))
+        a_i = float(a_of(m_i_b))
+        mf_b = np.interp(sched_b, pt, msc)
+        fld = imb["field"]
+        worst_b, at_b = 0.0, -1
+        for i_ in range(len(tgrid_b) - 1):
+            mesh = (tgrid_b[i_ + 1] - tgrid_b[i_]) * nxb ** 2
+            b_ = np.minimum(fld[i_], m_i_b).copy()
+            b_[0] = mf_b[i_]
+            kk = mesh * a_of(b_) / a_i
+            b_[0] = mf_b[i_] + kk[0] * mf_b[i_]
+            x_ = fld[i_ + 1]
+            ax_ = (1 + 2 * kk) * x_
+            ax_[-1] = (1 + kk[-1]) * x_[-1]
+            ax_[:-1] -= kk[:-1] * x_[1:]
+            ax_[1:] -= kk[1:] * x_[:-1]
+            r_ = float(np.linalg.norm(ax_ - b_) / np.linalg.norm(b_))
+            if r_ > worst_b:
+                worst_b, at_b = r_, i_
+        if not worst_b <= 2e-9:
+            ctx.violations.append(dict(what="a stored time level is not the implicit backward-Euler update of the previous one to solver accuracy: true residual of the step system (recomputed from the table) far above the tolerance asked of the solver",
+                                       key="true-residual", input=rescorr.replay_payload(cb), observed=dict(worst_true_relative_residual=worst_b, step=at_b)))
     impls = [rescorr.run_impl(c) for c in cases]
     ok = [k for k, im in enumerate(impls) if "field" in im and len(cases[k]["times"]) * cases[k]["nx"] <= 9000]
     res = rescorr.run_cases(ctx, [cases[k] for k in ok], [impls[k] for k in ok], "C04", shard=2)
